@@ -31,7 +31,9 @@ TEXT = {
              note=_std_note, technique=_tech),
  'C06': dict(level="C06_entities/_components/_actions/_assets/_subscriptions/_participants/_leave_broadcast/_delete_broadcasts give the exact post-state and the exact "
                    "deliveries of leaveSession, the one function every way of leaving goes through in the model (disconnect, handler error, session switch). "
-                   "Which wire-level endings reach it is established by the correspondence, not by proof.",
+                   "Which wire-level endings reach it is established by the correspondence, not by proof. Schedule clause for what a joiner is handed while an entity leaves the session "
+                   "(Model/Handover.lean read for components, Props/C06Conc.lean): C06_conc_newcomer_holds_no_component_of_a_removed_entity over the complete table of interleavings; "
+                   "C06_old_unfiltered_state_keeps_a_component is the interleaving of the code before the repair F47; on the real handlers: explored, oracle newcomer-handed-a-component-without-its-entity.",
              note=_std_note, technique=_tech),
  'C07': dict(level="The registry invariant Server.WF (distinct ids and UUIDs, no empty registered session, no live id in the pool, gauge = number of sessions) is proved "
                    "for every state reachable by any sequential history (C07_registry_invariant via run_WF); C07_join_live / _join_refused / _last_departure / "
